@@ -1,6 +1,6 @@
 # C07 / C09: active-object publish/subscribe in every configuration (PubSubTrace.tla + harness/sysdrive.py)
 import json, os, random, multiprocessing as mp
-from harness import common, tlc, dsched, sysdrive
+from harness import common, tlc, dsched, sysdrive, syscheck
 from checks.conc import ASSUME_B
 
 
@@ -107,6 +107,12 @@ def check(prop):
             {"cfg": r["cfg"], "schedule": r["schedule"], "verdict": x, "events": r["ev"], "outcome": r["outcome"], "errors": r["errors"][:1]})
         else:
           others[p] = others.get(p, 0) + 1
+    # the same executions against System.tla at the level of the objects' queues: a delivery through a lifo subscription lands at
+    # the front, through a fifo subscription at the back (C09); what the chart is handed is what its thread took from the front
+    sv, st = syscheck.validate(results, 30)
+    for p2, k in syscheck.file_violations(run, prop, results, sv).items():
+      others[p2] = others.get(p2, 0) + k
+    run.add(system_level_states=st.distinct, system_level_dispatches=sum(sum(x.get("dispatched", {}).values()) for x in sv.values()))
     configs = {json.dumps([[a["spied"], a["instrumented"], sorted(a["handler_ops"])] for a in r["cfg"]["aos"]]) for _, r in results}
     run.add(traces_validated_against_impl=len(results), evaluations=len(results), states=t.distinct, transitions=t.generated,
             distinct_nontrivial=len({json.dumps([r["cfg"], r["schedule"]]) for _, r in results}), deliveries_owed=owed_total,
